@@ -32,6 +32,8 @@ ASSUMPTIONS = [
 KINDS = {
     'int': lambda n, j: [(i * 3 + 1 + 7 * j) % 11 - 2 for i in range(n)],
     'float': lambda n, j: [i * 1.5 + 0.25 + j for i in range(n)],
+    'int8': lambda n, j: [(i * 5 + j) % 7 - 3 for i in range(n)],
+    'intwide': lambda n, j: [1000 * (i + 1) + 37 * j for i in range(n)],
     'floatnan': lambda n, j: [float('nan') if (i + j) % 2 == 1 else i + 0.5 + j for i in range(n)],
     'allnan': lambda n, j: [float('nan')] * n,
     'bool': lambda n, j: [(i + j) % 2 == 0 for i in range(n)],
@@ -40,7 +42,7 @@ KINDS = {
     'str': lambda n, j: ['s%d%d' % (i, j) for i in range(n)],
     'date': lambda n, j: [np.datetime64('2020-01-0%d' % (1 + (i + 2 * j) % 9)) for i in range(n)],
 }
-DT = {'int': 'int64', 'float': 'float64', 'floatnan': 'float64', 'allnan': 'float64', 'bool': 'bool', 'booltrue': 'bool',
+DT = {'int8': 'int8', 'intwide': 'int64', 'int': 'int64', 'float': 'float64', 'floatnan': 'float64', 'allnan': 'float64', 'bool': 'bool', 'booltrue': 'bool',
       'objnum': 'object', 'str': '<U3', 'date': 'datetime64[D]'}
 
 FUNCS = [('sum', {}), ('prod', {}), ('min', {}), ('max', {}), ('mean', {}), ('median', {}),
@@ -50,7 +52,7 @@ CUM = ['cumsum', 'cumprod']
 # (skipna version, propagating version)
 NPF = {'sum': (np.nansum, np.sum), 'prod': (np.nanprod, np.prod), 'min': (np.nanmin, np.min), 'max': (np.nanmax, np.max), 'mean': (np.nanmean, np.mean),
        'median': (np.nanmedian, np.median), 'std': (np.nanstd, np.std), 'var': (np.nanvar, np.var)}
-NUM = {'int', 'float', 'floatnan', 'allnan'}
+NUM = {'int', 'int8', 'intwide', 'float', 'floatnan', 'allnan'}
 NUMB = NUM | {'bool', 'booltrue'}
 
 
@@ -92,7 +94,7 @@ def flags(kinds, nrows, axis, parts_py):
 
 def scope(tier):
     if tier == 'quick':
-        return dict(kinds=('int', 'float', 'floatnan', 'bool', 'objnum', 'str', 'date'), maxcols=3, rows=(0, 1, 2, 3, 4))
+        return dict(kinds=('int8', 'intwide', 'float', 'floatnan', 'bool', 'objnum', 'str', 'date'), maxcols=3, rows=(0, 1, 2, 3, 4))
     return dict(kinds=tuple(KINDS), maxcols=4, rows=(0, 1, 2, 3, 4))
 
 
@@ -209,7 +211,7 @@ def run_case(case, ctx):
         ev = [e[1] for e in exp]
         # second, independent oracle for plain numeric data: the NumPy function on the column / row values themselves (the per-Series call shares
         # the reduction front-end with the Frame, so a defect there would be invisible to the first oracle)
-        if set(kinds) <= {'int', 'float', 'floatnan'} and nrows >= 1 and fname in NPF:
+        if set(kinds) <= {'int', 'int8', 'intwide', 'float', 'floatnan'} and nrows >= 1 and fname in NPF:
             with np.errstate(all='ignore'):
                 import warnings
                 with warnings.catch_warnings():
@@ -261,4 +263,21 @@ def run_case(case, ctx):
                 ctx.violation(f'{fname}|axis={axis}|skipna={skipna}|value|{fl}', **info, part=p,
                               got=[norm(x) for x in gotp], expected=[norm(x) for x in e[1].values])
                 break
+    # the same table grown in place, column by column (narrow dtypes may come before wider ones of the same kind): every reduction agrees with the
+    # Frame built at once.  One growth order per case (the layout index picks a rotation of the columns' arrival order is not needed: labels stay).
+    if li == 0 and ncols:
+        g = sf.FrameGO(index=index, name='fn')
+        for cname, a in zip(columns, arrays):
+            g[cname] = a
+        for (fname, kw), axis, skipna in itertools.product(FUNCS + [(c, {}) for c in CUM], (0, 1), (True, False)):
+            if not defined(fname, kinds, axis):
+                continue
+            kwf = dict(kw, axis=axis, skipna=skipna)
+            ctx.transition()
+            a_, b_ = call(f, fname, kwf), call(g, fname, kwf)
+            same_ = a_[0] == b_[0] and (a_[0] == 'err' and a_[1] == b_[1] or a_[0] == 'ok' and a_[1].shape == b_[1].shape
+                                          and all(close(x, y) for x, y in zip(np.asarray(a_[1].values, dtype=object).ravel().tolist(), np.asarray(b_[1].values, dtype=object).ravel().tolist())))
+            if not same_:
+                ctx.violation(f'{fname}|axis={axis}|skipna={skipna}|grown-FrameGO-differs-from-Frame', kinds=kinds, nrows=nrows, func=fname,
+                              frame=repr(a_[1].values.tolist() if a_[0] == 'ok' else a_), grown=repr(b_[1].values.tolist() if b_[0] == 'ok' else b_))
     ctx.sample({'kinds': kinds, 'nrows': nrows, 'layout': sig}, limit=1)
